@@ -292,6 +292,25 @@ def do_to_TermList(ctx, rng, i):
     # Id-only contributions may be dropped / represented as explicit 'Id' terms: compare including what was returned
     if np.linalg.norm(R - ref) > 1e-9 * max(1, np.linalg.norm(ref)):
         ctx.violation('to_TermList:does-not-reproduce-operator', '|sum(terms) - H| = %g' % np.linalg.norm(R - ref), case)
+    # `start`: the terms whose left-most index is in `start`, in any order of the start sites; together they partition the full list
+    Ls = len(sites)
+    if Ls >= 2:
+        order = [int(x) for x in rng.permutation(Ls)]
+        cut = int(rng.integers(1, Ls))
+        R2 = np.zeros_like(ref)
+        n_terms = 0
+        for start in (order[:cut], order[cut:]):
+            tl2 = H.to_TermList(basis, start=start, cutoff=1e-13)
+            for s_, t_ in zip(tl2.strength, tl2.terms):
+                if min(k for _, k in t_) not in start:
+                    ctx.violation('to_TermList(start):term-starts-elsewhere', 'term %r for start=%r' % (t_, start), case)
+                    return
+                R2 = R2 + s_ * dense.term_matrix(sites, t_, autoJW=False)
+                n_terms += 1
+        ctx.count('to_TermList.start_partition_checked')
+        if n_terms != len(tl.terms) or np.linalg.norm(R2 - R) > 1e-9 * max(1, np.linalg.norm(R)):
+            ctx.violation('to_TermList(start):partition-differs-from-full-list', 'start sets %r / %r give %d terms (full list %d), '
+                          '|sum - full| = %g' % (order[:cut], order[cut:], n_terms, len(tl.terms), np.linalg.norm(R2 - R)), case)
     # prefactor of one of the input terms (single operator strings on contiguous sites)
     for t, s in zip(terms, strengths):
         ks = [k for _, k in t]
